@@ -196,14 +196,21 @@ def chunks {α : Type} (n : Nat) : Nat → List α → List (List α)
 /-- `const applyBatchSize`, regenerated from keyvalue.go on every run -/
 def applyBatchSize : Nat := Generated.KV.applyBatchSize
 
-/-- client `a` runs `syncWithPeer` against server `b`; `fb` is a storage fault hitting the server's
-single `SetRaw` of the pushed values (the client side runs without faults) -/
-def exchangeF (fb : Fault) (a b : State) : State × State :=
-  let pushed := valuesAt a.store (pushIds a.index b.index)
-  let pulled := valuesAt b.store (pullIds a.index b.index)
+/-- client `a` runs `syncWithPeer` against server `b`, given the two id lists the diff returned:
+`push` = `removedIds ++ changedIds` (values we send), `pull` = `theirChangedIds ++ newIds` (values we
+ask for). `fb` is a storage fault hitting the server's single `SetRaw` of the pushed values (the
+client side runs without faults). -/
+def exchangeIds (fb : Fault) (push pull : List Nat) (a b : State) : State × State :=
+  let pushed := valuesAt a.store push
+  let pulled := valuesAt b.store pull
   let b' := (setRaw fb pushed b).1
   let a' := (chunks (applyBatchSize - 1) pulled.length pulled).foldl (fun s batch => (setRaw .none batch s).1) a
   (a', b')
+
+/-- … with the id lists taken from the abstract classification (`KV/LdiffBridge.lean` discharges
+this against the real diff recursion of the `Ldiff` model) -/
+def exchangeF (fb : Fault) (a b : State) : State × State :=
+  exchangeIds fb (pushIds a.index b.index) (pullIds a.index b.index) a b
 
 /-- one fault-free exchange -/
 def exchange (a b : State) : State × State := exchangeF .none a b
